@@ -605,6 +605,8 @@ class Ref:
                     if v is not None:
                         self.entries.append(('D', path, None if sel is None else norm_sel(", ".join(sel)), ns + s[1], norm_ws(v)))
                 self.run(s[3], path, sel, backref, excluded, ns + s[1] + "-", content)
+            elif k in 'MAa' and ns:
+                raise Reject("only declarations are allowed in a nested-property block")
             elif k == 'M':
                 q = norm_args(s[1])
                 if path and path[-1][0] == 'M':
@@ -613,7 +615,8 @@ class Ref:
                 else:
                     npath = path + (('M', q),)
                 before = len(self.entries)
-                self.run(s[2], npath, sel, backref, excluded, ns, content)
+                # a bare declaration directly in an at-rule is kept there (as at the top level)
+                self.run(s[2], npath, sel, backref, False, ns, content)
                 if len(self.entries) > before:
                     self.reached_at.append(('M', q))
             elif k == 'A':
@@ -626,7 +629,7 @@ class Ref:
                     self.run(s[3], npath, None, sel if sel is not None else backref, False, ns, content)
                 else:
                     # bare declarations are fine inside a generic at-rule, not inside @supports
-                    self.run(s[3], npath, sel, backref, excluded and s[1] == "supports", ns, content)
+                    self.run(s[3], npath, sel, backref, False, ns, content)
                 if len(self.entries) > before:
                     self.reached_at.append(('A', s[1], norm_args(s[2])))
             elif k == 'a':
@@ -892,7 +895,7 @@ class Gen:
                 inner.append(self.silent())
             if x < 0.15 and cx['depth'] + 1 < self.w['maxdepth']:
                 inner.append(self.nsblock(self.sub(cx)))
-            elif x < 0.15 + self.w['nsat']:
+            elif 0.15 <= x < 0.15 + self.w['nsat']:
                 kind = r.choice(['media', 'supports'])
                 b = [self.decl() for _ in range(r.randint(1, 2))]
                 inner.append(('M', self.media_args(), b) if kind == 'media' else ('A', 'supports', "(d%d: v)" % self.nxt(), b))
